@@ -113,6 +113,10 @@ def safe_get(obj, instance, owner):
 def iter_call(obj):
     while True:
         yield obj
+        if isinstance(obj, type):
+            # calling a class runs its constructor, not the __call__
+            # method it defines for its instances
+            return
         try:
             obj = obj.__call__
             obj.__code__.co_filename
